@@ -44,6 +44,7 @@ struct FaultCtl {
     std::string snap_src, snap_dst;
     bool snapped{false};
     bool keep_log{false};
+    bool count_abort{false};     // whether an explicit TxnAbort is a counted call (never made to fail)
     void reset() { oracle.clear(); calls = 0; counted = 0; log.clear(); snap_at = -1; snapped = false; }
     static void copy_db(const std::string& src, const std::string& dst)
     {
@@ -105,6 +106,16 @@ public:
     {
         if (!m_ctl->next("C")) return false; // transaction stays open; Close() rolls it back
         return SQLiteBatch::TxnCommit();
+    }
+    bool TxnAbort() override
+    {
+        if (m_ctl->count_abort && HasActiveTxn()) {
+            const std::deque<bool> saved = m_ctl->oracle;
+            m_ctl->oracle.clear();
+            m_ctl->next("A");
+            m_ctl->oracle = saved;
+        }
+        return SQLiteBatch::TxnAbort();
     }
 };
 
